@@ -60,6 +60,35 @@ class FiltIt(object):
         return "filter(%s)" % _show(self.inner)
 
 
+class SplitIt(object):
+    """data[lo..].split_inclusive(|b| b == 0xD3): the position where the next chunk starts (chunks end right behind a preamble byte)"""
+    inner = None
+
+    def __init__(self, idx, pred, done=False):
+        self.idx, self.pred, self.done = idx, pred, done
+
+    def copy_val(self, memo, cp):
+        return SplitIt(cp(self.idx, memo), self.pred, self.done)
+
+    def gen_with(self, o):
+        if isinstance(o, SplitIt) and o.pred.path == self.pred.path and o.done == self.done:
+            g = _gen(self.idx, o.idx)
+            return POISON if g is POISON else SplitIt(g, self.pred, self.done)
+        return POISON
+
+    def shifted(self, d):
+        return SplitIt(_shift(self.idx, d), self.pred, self.done)
+
+    def at_zero(self):
+        return SplitIt(_at_zero(self.idx), self.pred, self.done)
+
+    def same(self, o):
+        return isinstance(o, SplitIt) and o.pred.path == self.pred.path and o.done == self.done and _same(self.idx, o.idx)
+
+    def __repr__(self):
+        return "split_inclusive(at %s%s)" % (self.idx, ", done" if self.done else "")
+
+
 class ScanState(FrameState):
     def __init__(self):
         FrameState.__init__(self)
@@ -100,6 +129,9 @@ class ScanInterp(FrameInterp):
     def slice_len(self, v):
         if isinstance(v, Ref) and v.loc[0] == "slice":
             lo, hi = v.loc[1], v.loc[2]
+            if isinstance(lo, Opaque) and lo.tag == "stalelo" and lin_parts(hi) == (1, 1):
+                # the chunk a split found: from where the search started up to and including the byte found: off + 1 bytes
+                return Opaque("off", (lo.args[0], lo.args[1], 1))
             if hi is None:
                 if lin_parts(lo) == (0, 0):
                     return Sym(1)
@@ -112,12 +144,13 @@ class ScanInterp(FrameInterp):
         base = op[:-12] if wo else op
         if base == "Add" and ((isinstance(x, Opaque) and x.tag == "off") or (isinstance(y, Opaque) and y.tag == "off")):
             off, oth = (x, y) if (isinstance(x, Opaque) and x.tag == "off") else (y, x)
-            pa_, pc_ = off.args
+            pa_, pc_ = off.args[0], off.args[1]
+            k_ = off.args[2] if len(off.args) > 2 else 0          # the value is off + k_ (a chunk length: k_ = 1)
             r = None
             if isinstance(oth, Opaque) and oth.tag == "stale" and pa_ == 1 and oth.args[0] == 1 and oth.args[1] is not None:
-                r = mklin(1, oth.args[1])           # (old position + c) + off = new position + (c - search start)
+                r = mklin(1, oth.args[1] + k_)      # (old position + c) + off = new position + (c - search start)
             elif isinstance(oth, int) and not isinstance(oth, bool) and pa_ == 0:
-                r = mklin(1, oth - pc_)             # the search started at the constant pc_
+                r = mklin(1, oth - pc_ + k_)        # the search started at the constant pc_
             if r is None:
                 raise Undecided("the offset found by the search is added to something other than the position the search started from")
             # no overflow: the byte found exists, so start + off < LEN
@@ -218,6 +251,38 @@ class ScanInterp(FrameInterp):
                             self.learn(s2, 1, add(idx, 1), False)
                             return Adt("core::option::Option", 0, "None", [])
                         return ("fork-fn", [some, none])
+        if c == "core::slice::<impl [T]>::split_inclusive" and len(t["args"]) == 2:
+            base = self.operand(st, t["args"][0])
+            clo = self.operand(st, t["args"][1])
+            if isinstance(base, Ref) and base.loc[0] == "slice" and base.loc[2] is None and lin_parts(base.loc[1]) is not None and isinstance(clo, Closure):
+                return SplitIt(base.loc[1], clo)
+            raise Undecided("split_inclusive over something that is not a suffix of the input")
+        if c == "<core::slice::SplitInclusive<'a, T, P> as core::iter::Iterator>::next":
+            r = self.operand(st, t["args"][0])
+            obj = self._get(st, r.loc) if isinstance(r, Ref) else None
+            if isinstance(obj, SplitIt):
+                return self.split_next(st, r.loc, obj)
+            raise Undecided("SplitInclusive::next on an unmodelled iterator")
+        if c == "core::slice::<impl [T]>::last" and len(t["args"]) == 1:
+            base = self.operand(st, t["args"][0])
+            if isinstance(base, Ref) and base.loc[0] == "slice":
+                lo, hi = base.loc[1], base.loc[2]
+                if isinstance(lo, Opaque) and lo.tag == "stalelo" and lin_parts(hi) == (1, 1):
+                    return Adt("core::option::Option", 1, "Some", [Ref(("byte", Lin(1, 0)))])       # the byte the split found
+                if hi is None and getattr(st, "tail_chunk", None) is not None and lin_parts(lo) == st.tail_chunk:
+                    return Adt("core::option::Option", 1, "Some", [Opaque("tailbyte", ())])          # non-empty rest without any 0xD3
+            raise Undecided("last() of something other than a chunk of the split")
+        if c in ("core::cmp::PartialEq::ne", "core::cmp::PartialEq::eq") and len(t["args"]) == 2 and \
+                all((x.get("k") == "adt" and x.get("path") == "core::option::Option") for x in (t.get("cargs") or [{}])[:1]):
+            # Option<&u8> against Some(&0xD3): decided from what the path knows about that byte
+            a0 = self._deref(st, self.operand(st, t["args"][0]))
+            a1 = self._deref(st, self.operand(st, t["args"][1]))
+            res_ = self.option_byte_eq(st, a0, a1)
+            if res_ is None:
+                res_ = self.option_byte_eq(st, a1, a0)
+            if res_ is None:
+                raise Undecided("comparison of two options that is not `chunk.last() == Some(&0xD3)`")
+            return (1 if res_ else 0) if c.endswith("::eq") else (0 if res_ else 1)
         if c == "core::iter::Iterator::filter" and len(t["args"]) == 2:
             a0 = self.operand(st, t["args"][0])
             clo = self.operand(st, t["args"][1])
@@ -226,7 +291,7 @@ class ScanInterp(FrameInterp):
             raise Undecided("filter over something that is not the input's byte iterator")
         if short == "into_iter" and len(t["args"]) == 1:
             a0 = self.operand(st, t["args"][0])
-            if isinstance(a0, FiltIt):
+            if isinstance(a0, (FiltIt, SplitIt)):
                 return a0
         if c == "<core::iter::Filter<I, P> as core::iter::Iterator>::next":
             r = self.operand(st, t["args"][0])
@@ -276,6 +341,56 @@ class ScanInterp(FrameInterp):
         pa, pc = lin_parts(start)
         return self.search(st, start, clo, lambda pos: Ref(("byte", pos)), False, lambda s2: Opaque("off", (pa, pc)), None)
 
+    def option_byte_eq(self, st, x, y):
+        """x == y for x = Some(a byte of the input / the last byte of the preamble-free rest) and y = Some(&0xD3); None when not of that shape"""
+        if not (isinstance(x, Adt) and isinstance(y, Adt) and x.vname in ("Some", "None") and y.vname in ("Some", "None")):
+            return None
+        if x.vname != y.vname:
+            return False
+        if x.vname == "None":
+            return True
+        yv = self._deref(st, y.fields[0])
+        if isinstance(yv, BV):
+            yv = yv.concrete()
+        if yv != 0xD3:
+            return None
+        xv = x.fields[0]
+        if isinstance(xv, Opaque) and xv.tag == "tailbyte":
+            return False
+        if isinstance(xv, Ref) and xv.loc[0] == "byte" and lin_parts(xv.loc[1]) is not None:
+            stt = _byte_status(st, lin_parts(xv.loc[1]))
+            if stt == "d3":
+                return True
+            if stt == "not":
+                return False
+        return None
+
+    def split_next(self, st, floc, sp):
+        """<SplitInclusive as Iterator>::next with the predicate `byte == 0xD3`: the chunk up to and including the next preamble byte (the same
+        search as position(), re-based on the byte found); without a further preamble byte the non-empty rest as one last chunk, then None"""
+        if sp.done:
+            return Adt("core::option::Option", 0, "None", [])
+        start = sp.idx
+        pa, pc = lin_parts(start)
+
+        def found(s2):
+            o2 = self._get(s2, floc)
+            o2.idx = Lin(1, 1)
+            return Ref(("slice", Opaque("stalelo", (pa, pc)), Lin(1, 1)))
+
+        def tail(s2):
+            self.learn(s2, 1, add(start, 1), True)
+            s2.all_dismissed = True
+            s2.tail_chunk = (pa, pc)
+            self._get(s2, floc).done = True
+            return Adt("core::option::Option", 1, "Some", [Ref(("slice", start, None))])
+
+        def none(s2):
+            self.learn(s2, 1, add(start, 1), False)
+            s2.all_dismissed = True
+            return Adt("core::option::Option", 0, "None", [])
+        return self.search(st, start, sp.pred, lambda pos: Ref(("byte", pos)), False, found, floc, none_fns=[tail, none])
+
     def filter_next(self, st, floc, filt):
         """<Filter<..> as Iterator>::next: the first item from the cursor on that satisfies the predicate - the same search"""
         inner = filt.inner
@@ -299,7 +414,7 @@ class ScanInterp(FrameInterp):
             return item(Lin(1, 0))
         return self.search(st, inner.idx, filt.pred, item, True, found, floc)
 
-    def search(self, st, start, clo, item, by_ref, result, keep):
+    def search(self, st, start, clo, item, by_ref, result, keep, none_fns=None):
         pa, pc = lin_parts(start)
         if st.scan_calls:
             raise Undecided("a search after a frame was tried in the same iteration")
@@ -344,7 +459,7 @@ class ScanInterp(FrameInterp):
         def none(s2):
             s2.all_dismissed = True
             return Adt("core::option::Option", 0, "None", [])
-        return ("fork-fn", [some, none])
+        return ("fork-fn", [some] + (list(none_fns) if none_fns else [none]))
 
 
 def _mentions_q(v, depth=0):
@@ -360,6 +475,8 @@ def _mentions_q(v, depth=0):
         return any(_mentions_q(x, depth + 1) for x in (v.idx, v.end, v.enum))
     if isinstance(v, FiltIt):
         return _mentions_q(v.inner, depth + 1)
+    if isinstance(v, SplitIt):
+        return _mentions_q(v.idx, depth + 1)
     if isinstance(v, (Tup, Adt, Closure)):
         return any(_mentions_q(x, depth + 1) for x in v.fields)
     if isinstance(v, list):
